@@ -30,7 +30,7 @@ def world():
     import logging
     logging.getLogger("traits").addHandler(logging.NullHandler())
     logging.getLogger("traits").propagate = False
-    from traits.api import (HasTraits, TraitType, Int, List, Set, Property, cached_property, Supports, TraitError, Either,
+    from traits.api import (HasTraits, TraitType, Int, List, Set, Dict, Property, cached_property, Supports, TraitError, Either,
                             Instance, Range)
     from traits.adaptation.api import AdaptationManager, set_global_adaptation_manager
     EXC["TraitError"] = TraitError
@@ -49,6 +49,20 @@ def world():
 
         def validate(self, obj, name, value):
             maybe_fail("item")
+            if value == "bad":
+                self.error(obj, name, value)
+            return value
+
+    class KItem(Item):
+        def validate(self, obj, name, value):
+            maybe_fail("kitem")
+            if value == "bad":
+                self.error(obj, name, value)
+            return value
+
+    class VItem(Item):
+        def validate(self, obj, name, value):
+            maybe_fail("vitem")
             if value == "bad":
                 self.error(obj, name, value)
             return value
@@ -112,6 +126,7 @@ def world():
         cp = Property(depends_on="v")
         lst = List(Item())
         sset = Set(Item())
+        dct = Dict(KItem(), VItem())
         sup = Supports(Target)
         ea = Either(Instance(Target, adapt="yes"), Instance(Plain))
         lo = Int(0)
@@ -177,6 +192,7 @@ class Obj(object):
         o = self.o
         sup = o.sup
         return {"v": o.v, "vq": o.vq, "dflt": o.__dict__.get("dflt", -1), "p": o._p, "lst": list(o.lst), "sset": sorted(o.sset),
+                "dct": [[k, v] for k, v in sorted(o.dct.items(), key=lambda p: str(p[0]))],
                 "sup": getattr(sup, "depth", 0) if sup is not None else -1,
                 "ea": getattr(o.ea, "depth", 50) if o.ea is not None else -1,        # 50: a raw (unadapted) Plain object
                 "dr": o.__dict__.get("_traits_cache_dr", -1), "start": o.__dict__.get("start", -1),
@@ -215,6 +231,13 @@ def step(ob, op, a, xs, f, probe_cp=True):
             o.sset.update([conc(x) for x in xs])
         elif op == "sset_symdiff":
             o.sset.symmetric_difference_update([conc(x) for x in xs])
+        elif op == "dct_update":
+            o.dct.update(dict((conc(k), conc(a)) for k in xs))
+        elif op == "dct_ior":
+            d = o.dct          # (the in-place operator on the container itself, not an augmented ASSIGNMENT of the attribute,
+            d |= dict((conc(k), conc(a)) for k in xs)      # which would also re-validate the whole value)
+        elif op == "dct_setitem":
+            o.dct[conc(xs[0])] = conc(a)
         elif op == "sup_assign":
             o.sup = w["S"][a]()
         elif op == "ea_assign":
@@ -249,11 +272,12 @@ def step(ob, op, a, xs, f, probe_cp=True):
             "probe_notifies": 1 if ob.aux_calls else 0}
 
 
-SITES = ["drdflt", "pvalidator", "validator", "dflt", "getter", "setter", "item", "factory", "cpgetter_read", "cpgetter_notify", "hstatic", "hdyn", "hobs"]
+SITES = ["drdflt", "pvalidator", "validator", "dflt", "getter", "setter", "item", "kitem", "vitem", "factory", "cpgetter_read", "cpgetter_notify", "hstatic", "hdyn", "hobs"]
 OP_SITES = {"set_v": ["validator", "hstatic", "hdyn", "hobs", "cpgetter_notify"], "setq_v": ["validator"], "read_dflt": ["dflt"],
             "read_p": ["getter"], "set_p": ["setter"], "read_cp": ["cpgetter_read"], "lst_extend": ["item"],
             "sset_update": ["item"], "sset_symdiff": ["item"], "sup_assign": ["factory"], "ea_assign": ["factory"],
-            "set_dr": ["drdflt"], "read_dr": ["drdflt"], "sync_a": ["pvalidator"], "sync_b": ["pvalidator"]}
+            "set_dr": ["drdflt"], "read_dr": ["drdflt"], "sync_a": ["pvalidator"], "sync_b": ["pvalidator"],
+            "dct_update": ["kitem", "vitem"], "dct_ior": ["kitem", "vitem"], "dct_setitem": ["kitem", "vitem"]}
 
 
 def run_history(rnd, steps, t):
@@ -270,8 +294,10 @@ def run_history(rnd, steps, t):
             a = rnd.randint(0, 1)
         elif op == "sup_assign":
             a = rnd.randint(0, 2)
-        elif op in ("lst_extend", "sset_update", "sset_symdiff"):
-            xs = [rnd.choice([1, 2, 3, 4, 5] + ([BAD] if rnd.random() < 0.15 else [])) for _ in range(rnd.randint(0, 4))]
+        elif op in ("lst_extend", "sset_update", "sset_symdiff", "dct_update", "dct_ior", "dct_setitem"):
+            xs = [rnd.choice([1, 2, 3, 4, 5] + ([BAD] if rnd.random() < 0.15 else [])) for _ in range(rnd.randint(1 if op == "dct_setitem" else 0, 4))]
+            if op.startswith("dct"):
+                a = rnd.choice([1, 2, 3, BAD] if rnd.random() < 0.3 else [1, 2, 3])
             if op != "lst_extend":
                 seen = set()
                 xs = [x for x in xs if not (x in seen or seen.add(x))]
